@@ -27,7 +27,8 @@ RULE = ('worlds of 2-3 tables over one content from tables.rand_spec (dims 1..4,
         'transpose twice, copy, column/row access, nnz, and (30%) a CSR/CSC matrix with stored zeros / unsorted indices put in place directly}; in half of the worlds one table differs in exactly one value (also by 1e-9..1e-12 or one ulp; 10% chains x,y,z with steps d,2d) / id / '
         'order of two ids / metadata entry (changed value, category on one side only, category missing, entry {} on one side) / '
         'presence of metadata / type; programs of 3-10 steps over {nnz, row/column '
-        'access, iter, t[i,j], plain reads, ==, !=, descriptive_equality in both directions and on one object, copy}; '
+        'access, iter, t[i,j], plain reads, the writers as read-only accessors (to_tsv with / without header_key, header_value, '
+        'metadata_formatter; to_json; to_hdf5; to_dataframe; metadata_to_dataframe) also on tables with metadata on SOME ids only, ==, !=, descriptive_equality in both directions and on one object, copy}; '
         'compared with the model: a deep content snapshot after every accessor, every verdict, every returned nnz, and format/indptr/indices/data of every touched table '
         'after every step; every ordered pair is compared at the end and symmetry is checked on unequal pairs too; for equal-content pairs to_tsv text, json.loads(to_json) and the raw h5py dump of to_hdf5; '
         'non-trivial = at least two tables with different initial (format, sortedness, stored zeros) or a one-difference '
